@@ -1110,3 +1110,41 @@ Proof.
     destruct K as [pairs [Hp ->]]. destruct (IH _ Hxs) as [rows [Hr ->]].
     exists ((fst row, pairs) :: rows). split; [|reflexivity]. rewrite Hp. cbn [obind]. rewrite Hr. reflexivity.
 Qed.
+
+(** the within-word matcher as a chain of units *)
+Lemma last_line_ok u : last (tpl_lines_go [] u) [Text "x"] = [] -> True. Proof. exact (fun _ => I). Qed.
+
+Ltac unit_of L cmd Hc :=
+  first [refine (unit_ex _ _ _ _ _ (L cmd Hc)) | refine (unit_ex _ _ _ _ _ (L cmd))]; vm_compute; reflexivity.
+Ltac unit_of1 H := refine (unit_ex _ _ _ _ _ H); vm_compute; reflexivity.
+
+Lemma sub_fn_scans command (Hc : name_ok command) nc ns :
+  exists n, scans command n (write_subword_fn command nc ns) (sub_fn_stmts command).
+Proof.
+  assert (T : write_subword_fn command nc ns
+              = (render (env_cmd command) U_sub0
+                 ++ (if nc then render (env_cmd command) write_subword_fn_1 else EmptyString)
+                 ++ (if ns then render (env_cmd command) write_subword_fn_2 else EmptyString)
+                 ++ render (env_cmd command) write_subword_fn_3
+                 ++ render (env_cmd command) write_subword_fn_4
+                 ++ render (env_cmd command) write_subword_fn_5
+                 ++ (if nc then render (env_cmd command) U_sub6 else EmptyString)
+                 ++ render (env_cmd command) U_sub78)%string).
+  { unfold write_subword_fn, U_sub0, U_sub6, U_sub78, fmtln, fmt, seg_nl, env_cmd. cbn [sconcat].
+    rewrite !render_app. cbn [render]. destruct nc, ns; rewrite ?QuoteRT.append_nil_r, ?append_assoc; reflexivity. }
+  rewrite T. clear T.
+  assert (S : sub_fn_stmts command
+              = [SFunc (fn_name command "_subword"); SScalar "subword_state" 0; SScalar "char_index" 0; SScalar "matched" 0]
+                ++ (if nc then [] else []) ++ (if ns then [] else []) ++ [] ++ []
+                ++ [SLits "subword_candidates" []; SLits "subword_matches" []]
+                ++ (if nc then [] else []) ++ [SEnd]) by (destruct nc, ns; reflexivity).
+  rewrite S. clear S.
+  apply scans_ex_app; [unit_of U_sub0_scans command Hc|].
+  apply scans_ex_app; [apply scans_if; unit_of U_sub1_scans command Hc|].
+  apply scans_ex_app; [apply scans_if; unit_of U_sub2_scans command Hc|].
+  apply scans_ex_app; [unit_of U_sub3_scans command Hc|].
+  apply scans_ex_app; [unit_of U_sub4_scans command Hc|].
+  apply scans_ex_app; [unit_of U_sub5_scans command Hc|].
+  apply scans_ex_app; [apply scans_if; unit_of U_sub6_scans command Hc|].
+  unit_of U_sub78_scans command Hc.
+Qed.
